@@ -18,7 +18,7 @@ struct SegDumpOpts {
     bool bases = true;          // gr_cinfo_base
     bool attrs = true;          // a selection of gr_slot_attr values
     const gr_face *face = nullptr; const gr_font *font = nullptr;  // for gr_slot_advance_X/Y
-    unsigned num_user = 0;
+    unsigned num_user = 4;      // user attributes 0..3 (reads beyond the font's count return 0)
 };
 
 // collects the slots of a segment by following next from first; bounded walk
